@@ -25,7 +25,7 @@ def build_or_classify(build, cfg):
             signature=dict(kind="internal_error", type=d["type"], where=d["where"])))
 
 
-def rederive(build, make_observer, cfg, trace, only):
+def rederive(build, make_observer, cfg, trace, only, pass_hw=False):
     """Replay a witness in amaranth.sim on a fresh instance and re-evaluate the oracle on the
     simulator's values. Returns (err, cycle) of the first oracle failure, or (None, None)."""
     h2 = build(cfg)
@@ -33,6 +33,8 @@ def rederive(build, make_observer, cfg, trace, only):
         only = only(h2)
     names = [n for n, _ in h2.probes if only is None or n in only]
     got = simulate(h2, trace, probe_names=set(names))
+    if pass_hw:
+        return _rederive_hw(build, make_observer, cfg, trace, only, got)
 
     class _C:   # minimal stand-in for Compiled: observers only use the name -> index maps
         pass
@@ -52,9 +54,35 @@ def rederive(build, make_observer, cfg, trace, only):
     return None, None
 
 
+def _rederive_hw(build, make_observer, cfg, trace, only, got):
+    """Observers that look at the hardware state (owner inference): states come from the compiled
+    netlist of a fresh instance, every checked value from the simulator; the two must agree on the
+    trace and on every probe letter the observer uses for its inference."""
+    h3 = build(cfg)
+    comp = compile_harness(h3, only=only)
+    ob = make_observer(cfg, h3, comp)
+    st = ob.init
+    hw = comp.init
+    for t, letter in enumerate(trace):
+        letter = tuple(letter)
+        outs, hw2 = comp.step(hw, letter)
+        if tuple(outs) != tuple(got[t]):
+            raise ToolFailure(f"compiled netlist and amaranth.sim disagree at cycle {t} of the witness")
+        for pl in getattr(ob, "probe_letters", lambda: [])():
+            g = simulate(build(cfg), [tuple(l) for l in trace[:t]] + [pl], probe_names=set(comp.probe_names))
+            o, _ = comp.step(hw, pl)
+            if tuple(o) != tuple(g[-1]):
+                raise ToolFailure("compiled netlist and amaranth.sim disagree on an owner-inference probe")
+        err, st = ob.observe(st, letter, tuple(got[t]), hw, hw2)
+        if err is not None:
+            return err, t
+        hw = hw2
+    return None, None
+
+
 def explore_hw(build, make_observer, cfg, tier, seed, *, only=None, max_states=1_500_000,
                max_seconds=240.0, max_depth=None, conf_frac=None, conf_cap=None, on_edge=None,
-               post=None, expect_support=None):
+               post=None, expect_support=None, pass_hw=False):
     t0 = time.time()
     h, early = build_or_classify(build, cfg)
     if h is None:
@@ -77,7 +105,8 @@ def explore_hw(build, make_observer, cfg, tier, seed, *, only=None, max_states=1
                                                   where=d["where"])))
     ob = make_observer(cfg, h, comp)
     r = bfs((comp.init, ob.init), comp.step, ob.letters, ob.observe, max_states=max_states,
-            max_seconds=max_seconds, max_depth=max_depth, on_edge=on_edge)
+            max_seconds=max_seconds, max_depth=max_depth,
+            on_edge=(None if on_edge is None else on_edge(ob)), pass_hw=pass_hw)
     t_bfs = time.time() - t0
     res = dict(states=r.states, transitions=r.transitions, max_depth=r.max_depth,
                capped=r.capped, outcomes=r.outcomes, flops_in_cone=comp.n_flops,
@@ -85,7 +114,7 @@ def explore_hw(build, make_observer, cfg, tier, seed, *, only=None, max_states=1
                cells=comp.n_cells, t_bfs=round(t_bfs, 2))
     if r.violation is not None:
         trace = [list(l) for l in r.violation["trace"]]
-        err, cyc = rederive(build, make_observer, cfg, trace, only_arg)
+        err, cyc = rederive(build, make_observer, cfg, trace, only_arg, pass_hw=pass_hw)
         if err is None:
             raise ToolFailure(f"violation {r.violation['err']!r} found on the compiled netlist is "
                               f"not reproduced by amaranth.sim (cfg={cfg!r})")
